@@ -162,6 +162,31 @@ def rule_data_kernels(ctx: Ctx, rule: str = "parser-kernel-law") -> None:
 
     _run(ctx, rule, "data._combine_or_append", "equal absolute terms merge (coefficients add), different ones are appended, input list untouched", k_combine_or_append)
 
+    def k_combine_degenerate():
+        # concrete numbers, with the degenerate bars a user can write: |3| and |x - x| (no variable left inside)
+        ta = TermAlg(prog)
+        fi = prog.func("data._combine_or_append")
+
+        def ctl(c, fs):
+            return Rec(TL, {"constant": num(c), "factors": DictV({k: num(v) for k, v in fs.items()})})
+
+        three, zero, two_y = ctl(3, {}), ctl(0, {}), ctl(0, {y: 2})
+        r = ta.call(fi, [ListV([mk_at(three, num(1))]), mk_at(ctl(3, {}), num(2))], {})
+        if len(r.items) != 1 or not _eq(r.items[0].f["coefficient"], num(3)):
+            return "|3| + 2|3| is not merged into 3|3|"
+        r = ta.call(fi, [ListV([mk_at(zero, num(1))]), mk_at(two_y, num(1))], {})
+        if len(r.items) != 2:
+            return "|0| and |2y| are not kept apart"
+        r = ta.call(fi, [ListV([mk_at(two_y, num(1))]), mk_at(ctl(0, {}), num(-1))], {})
+        if len(r.items) != 2:
+            return "|2y| and -|0| are not kept apart"
+        r = ta.call(fi, [ListV([mk_at(two_y, num(1))]), mk_at(ctl(1, {y: 2}), num(1))], {})
+        if len(r.items) != 2:
+            return "|2y| and |2y + 1| are merged although they differ"
+        return None
+
+    _run(ctx, rule, "data._combine_or_append", "absolute terms without a variable inside the bars (|3|, |x - x|) combine like any other, without an error", k_combine_degenerate)
+
     def k_expand():
         ta = TermAlg(prog)
         base = mk_tl("a", [x])
@@ -391,10 +416,26 @@ def rule_parse_entry(ctx: Ctx, rule: str = "parse-errors") -> None:
     else:
         ctx.violation(rule, key, construct, "exits are %s" % sorted(outs), where=fi.where)
     # the grammar element used is the module-level `expression`, parsed with parse_all=True
-    calls = [n for n in ast.walk(fi.node) if isinstance(n, ast.Call) and isinstance(n.func, ast.Attribute) and n.func.attr in ("parse_string", "parseString")]
     construct = "polyhedral_termlist_from_string parses the whole string (parse_all=True) with the grammar's `expression`"
-    okc = len(calls) == 1 and norm(calls[0].func.value) == "expression" and any(k.arg in ("parse_all", "parseAll") and norm(k.value) == "True" for k in calls[0].keywords)
-    (ctx.ok(rule, key, construct) if okc else ctx.violation(rule, key, construct, "call is %s" % (norm(calls[0]) if calls else "missing"), where=fi.where))
+    # read off the simulated paths (a helper extracted later is followed): every path that parses does so once, with
+    # the grammar's `expression` and parse_all=True
+    evs = []
+    for p in ps:
+        cs = [e for e in p.events if e["kind"] == "call" and str(e["callee"]).split(".")[-1] in ("parse_string", "parseString")]
+        if cs:
+            evs.append(cs)
+    okc = bool(evs)
+    shown = "missing"
+    for cs in evs:
+        c = cs[0]
+        shown = norm(c["node"])
+        recv = c["recv"]
+        is_expr = (isinstance(recv, tuple) and ((recv[0] == "global" and recv[-1] == "expression") or (recv[0] == "ext" and str(recv[1]).split(".")[-1] == "expression"))) or str(c["callee"]).split(".")[-2:-1] == ["expression"]
+        whole = any(k in ("parse_all", "parseAll") and v == const(True) for k, v in c["kws"]) or (len(c["args"]) >= 2 and c["args"][1] == const(True))
+        if len(cs) != 1 or not is_expr or not whole:
+            okc = False
+            break
+    (ctx.ok(rule, key, construct) if okc else ctx.violation(rule, key, construct, "call is %s" % shown, where=fi.where))
 
 
 def rule_infix_chain(ctx: Ctx, rule: str = "constant-arithmetic") -> None:
@@ -609,6 +650,12 @@ def rule_parser_memoisation(ctx: Ctx, rule: str = "parser-memoisation") -> None:
         for node in ast.walk(fi.node):
             if isinstance(node, ast.Return) and isinstance(node.value, ast.Name) and node.value.id in params and node.value.id not in rebound:
                 aliasing.append("%s returns its operand `%s` (line %d)" % (fi.key, node.value.id, node.lineno))
+    # B': a fold over the payload without a starting value hands back the payload itself when there is one item
+    #     (`reduce(add, group)` for a one-term list): the fresh sum the in-place actions rely on is not created
+    for fi in gram:
+        for node in ast.walk(fi.node):
+            if isinstance(node, ast.Call) and norm(node.func).split(".")[-1] == "reduce" and len(node.args) == 2 and not any(k.arg in ("initial", "initializer") for k in node.keywords):
+                aliasing.append("%s folds its payload without a starting value (line %d): a single item is returned as it is" % (fi.key, node.lineno))
     ctx.extra["parse_actions_scaling_in_place"] = len(mutators)
     if memo and mutators and aliasing:
         ctx.violation(rule, "grammar", construct, "memoisation is enabled (%s), %d parse actions scale their payload in place (e.g. %s) and %s: an alternative that re-parses a position receives the already scaled object and scales it again" % (memo[0], len(mutators), sorted(mutators)[0], aliasing[0]), where=memo[0])
